@@ -537,6 +537,11 @@ def check_order(case, fails):
     if paired:
         groups += [["-U", "2"], ["-A", A2], ["-Q", "20"], ["-L", "11"]]
     chosen = [g for g in groups if rng.random() < 0.5]
+    # name options: --strip-suffix (the generated headers end in ":0:1"), and --rename instead of -y (they exclude each other)
+    if rng.random() < 0.5:
+        chosen.append(["--strip-suffix", ":1"])
+    if ["-y", " suff"] not in chosen and rng.random() < 0.6:
+        chosen.append(["--rename", "{header} cp={cut_prefix} m={match_sequence}"])
     outs = []
     for k in range(2):
         order = chosen[:]
@@ -565,7 +570,7 @@ def check_order(case, fails):
     if "-q" in flat:
         mods.append(QualityTrimmer(0, 15))
     if "-a" in flat:
-        mods.append(AdapterCutter([BackAdapter(A1, max_errors=0.1, min_overlap=3)]))
+        mods.append(AdapterCutter([BackAdapter(A1, max_errors=0.1, min_overlap=3, name="1")]))
     if "--poly-a" in flat:
         mods.append(PolyATrimmer())
     if "-l" in flat:
@@ -574,8 +579,14 @@ def check_order(case, fails):
         mods.append(NEndTrimmer())
     if "--length-tag" in flat:
         mods.append(LengthTagModifier("len="))
+    if "--strip-suffix" in flat:
+        from cutadapt.modifiers import SuffixRemover
+        mods.append(SuffixRemover(":1"))
     if "-y" in flat:
         mods.append(PrefixSuffixAdder("", " suff"))
+    if "--rename" in flat:
+        from cutadapt.modifiers import Renamer
+        mods.append(Renamer("{header} cp={cut_prefix} m={match_sequence}"))
     for (name, s, q), got in zip(case.r1, outs[0][0]):
         rec = SequenceRecord(name, s, q)
         info = ModificationInfo(rec)
